@@ -50,7 +50,7 @@ fn pick_qt(run: u64) -> (QT, u64) {
     }
 }
 
-pub fn draw_swarm(rng: &mut Prng, mode: Mode, run: u64, st: &mut Stats) -> Swarm {
+pub fn draw_swarm(rng: &mut Prng, mode: Mode, run: u64, seed_offset: u64, st: &mut Stats) -> Swarm {
     let (qt, sidx) = pick_qt(run);
     st.hit(match qt {
         QT::Q8 => Pr::runs_q8,
@@ -144,10 +144,52 @@ pub fn draw_swarm(rng: &mut Prng, mode: Mode, run: u64, st: &mut Stats) -> Swarm
                     Some(Ev::Acc(Acc { sp: Sp::Prod, sub: rng.chance(1, 2), ops }))
                 }
             }
-            QT::Q32 => None,
+            QT::Q32 => None, // (Q32E2 is stratified by operand structure class below, for every sidx)
         }
     } else {
         None
+    };
+    // Q32E2: half of the runs start with a product whose two factors belong to the k-th
+    // (sign, regime polarity, regime length, exponent) class pair — 2*2*30*4 = 480 classes per factor,
+    // 230 400 class pairs — with seeded fraction bits; k walks through the class pairs with the run
+    // index, offset by the seed, so a thorough batch visits every class pair many times.
+    let first = if qt == QT::Q32 && sidx % 2 == 0 {
+        let k = (sidx / 2).wrapping_add(seed_offset) % 230_400;
+        let (ka, kb) = (k / 480, k % 480);
+        let mk = |rng: &mut Prng, c: u64| -> u32 {
+            let (neg, pol, e, rl) = (c & 1 != 0, c & 2 != 0, ((c >> 2) & 3) as u32, (c >> 4) as u32 + 1); // rl 1..=30
+            let fill = match rng.below(8) {
+                0 => 0,
+                1 => u64::MAX,
+                2 => 1u64 << rng.below(32),
+                _ => rng.next(),
+            };
+            let mut body: u32 = 0;
+            let mut used = 0u32;
+            for i in 0..31u32 {
+                let bit = if i < rl {
+                    pol
+                } else if i == rl {
+                    !pol
+                } else if i - rl - 1 < 2 {
+                    (e >> (1 - (i - rl - 1))) & 1 != 0
+                } else {
+                    used += 1;
+                    (fill >> (used % 64)) & 1 != 0
+                };
+                body = (body << 1) | bit as u32;
+            }
+            if body == 0 {
+                body = 1;
+            }
+            if neg { body.wrapping_neg() } else { body }
+        };
+        let (a, b) = (mk(rng, ka), mk(rng, kb));
+        st.hit(Pr::strat_q32);
+        let sp = [Sp::Prod, Sp::ProdM, Sp::ProdT][rng.below(3) as usize];
+        Some(Ev::Acc(Acc { sp, sub: rng.chance(1, 2), ops: vec![a, b] }))
+    } else {
+        first
     };
     Swarm {
         first,
@@ -489,7 +531,7 @@ pub fn generate_and_run_traced(seed: u64, run: u64, mode: Mode, st: &mut Stats, 
         Mode::C12 => STREAM_QUIRE_C12,
     };
     let mut rng = Prng::for_run(seed, stream, run);
-    let sw = draw_swarm(&mut rng, mode, run, st);
+    let sw = draw_swarm(&mut rng, mode, run, seed % 230_400, st);
     if let Some(t) = trace.as_mut() {
         let _ = writeln!(t, "type {}\ninit_via {}", sw.qt.name(), sw.init_via);
         let _ = t.flush();
